@@ -1363,3 +1363,45 @@ func ruleHavingNeedsGroup(c *Ctx) {
 	}
 	c.Check(refused, "build.having-needs-group", c.P.funcKey(f), c.P.Pos(f.Pos()), "HAVING without grouping columns is an error", "the SELECT builder accepts HAVING without GROUP BY, and the grouping stage (the only place HAVING is evaluated) returns its input untouched when there are no grouping columns: the clause is skipped — a failing or false HAVING changes nothing and reports nothing")
 }
+
+// Round 7 cross registrations. A union branch that fails must fail the union (C06: "A UNION ALL B returns the rows of A
+// followed by the rows of B" has no reading under which a failing B contributes nothing); the comparison of two numbers is a
+// trichotomy for CASE WHEN and the arithmetic comparisons of a select list as well (C02: `v % d = 0` with a NaN operand);
+// a goroutine of a PARALLEL join that blocks on a full channel is a deadlock (C13); the argument list of a nested call
+// must not be the enclosing call's (C20: SETVAR('b', GETVAR('a'))), and a NULL stored by SETVAR is the untyped NULL (C20).
+func init() {
+	register("C06", ruleC06BranchErrors)
+	register("C02", ruleC15Trichotomy)
+	register("C13", ruleC10BoundedSend)
+	register("C20", ruleC18ArgReader, ruleC12UnwrapTable)
+}
+
+// ruleC06BranchErrors: the error discipline of C19 restricted to the union builder and the function that runs a branch.
+func ruleC06BranchErrors(c *Ctx) {
+	c.Doc("c06.branch-errors", "every call site inside the union builder and the branch executor (the functions of package genql whose name mentions Union, closures included) whose callee can return a non-nil error: on every path on which the error is non-nil the enclosing function ends by returning a non-nil error (same idiom table as c19.no-drop) — a branch that fails is never taken for a branch without rows")
+	n := 0
+	for _, s := range c.P.errSites() {
+		root := s.fn
+		for root.Parent() != nil {
+			root = root.Parent()
+		}
+		if funcPkgPath(root) != modPath || !strings.Contains(fnShort(root), "Union") {
+			continue
+		}
+		n++
+		c.Fn(c.P.funcKey(s.fn))
+		v := c.P.checkErrSite(s)
+		pos := c.P.Pos(s.call.Pos())
+		switch v.status {
+		case "ok":
+			c.Pass("c06.branch-errors", s.key, pos, v.idiom)
+		case "undecided":
+			c.Unknown("c06.branch-errors", s.key, pos, v.detail)
+		default:
+			c.Fail("c06.branch-errors", s.key, pos, v.status+": "+v.detail)
+		}
+	}
+	if n < 4 {
+		c.Unknown("c06.branch-errors", "union functions", "-", fmt.Sprintf("only %d error-returning call sites found in the union builder and the branch executor (at least 4 confirmed by reading)", n))
+	}
+}
